@@ -64,6 +64,13 @@ async function runProgram (code, registry, plan, monitored) {
   const before = new Set(Object.getOwnPropertyNames(g))
   let loadError = null
   world.monitor = monitored
+  if (monitored) {
+    // arm the H4 sentinel: `let __datadog_x_0, __datadog_x_1;` -> `let __datadog_x_0 = $simU, ...;`
+    g.$simU = world.unassigned
+    let armed = 0
+    code = code.replace(/\blet ((?:__datadog_[^\s,;=()]+(?:, )?)+);/g, (m, names) => { armed++; return 'let ' + names.split(', ').map(n => `${n} = globalThis.$simU`).join(', ') + ';' })
+    world.stat('injected-let-declarations-armed', armed)
+  }
   if (monitored && !plan.lateHooks) g._ddiast = world.hooks
   try {
     const mod = { exports: {} }
@@ -90,6 +97,7 @@ async function runProgram (code, registry, plan, monitored) {
   const leaked = Object.getOwnPropertyNames(g).filter(n => !before.has(n) && n.startsWith('__datadog'))
   for (const n of leaked) delete g[n]
   if (!hadHooks) delete g._ddiast
+  delete g.$simU
   return { world, loadError, leaked }
 }
 
